@@ -61,6 +61,10 @@ func tagClassTrimmed(t string) string {
 					return "list"
 				}
 				return "interior-quote"
+			case '\n':
+				// a raw line feed is no etagc (RFC 7232 section 2.3) and no
+				// character of a quoted string in the backslash reading either
+				return "raw-line-feed"
 			}
 		}
 		return ""
@@ -311,6 +315,7 @@ func tagNearMisses() []labelled {
 		{`"a"b"`, "interior-quote"}, {`"""`, "interior-quote"}, {`"a""b"`, "interior-quote"},
 		{`"abc`, "unbalanced-quote"}, {`abc"`, "unbalanced-quote"}, {`"`, "unbalanced-quote"}, {`W/"abc`, "unquoted"},
 		{`*`, "wildcard"},
+		{"\"a\nb\"", "raw-line-feed"}, {"\"\n\"", "raw-line-feed"}, {"\"a\r\nb\"", "raw-line-feed"}, {"\"abc\n\"", "raw-line-feed"}, {"\"\nabc\"", "raw-line-feed"},
 		{``, "empty"}, {` `, "blank"}, {"\t\n", "blank"},
 		// in the grammar / don't-care, value-checked when accepted
 		{`"abc"`, ""}, {`""`, ""}, {`"a b"`, ""}, {`"a'b"`, ""}, {"\"a`b\"", ""}, {"\"\xff\"", ""}, {"\"a\x80b\"", ""}, {"\"\xc3\"", ""}, {"\"\xed\xa0\x80\"", ""},
